@@ -31,7 +31,9 @@ HOSTILE_NAMES = ["class", "def", "None", "True", "False", "import", "from", "lam
                  "bytes", "tuple", "dataclass", "XmlDate", "xmlDateTime", "XmlPeriod", "sequence", "Mapping", "ForwardRef", "mro", "__slots__", "__init__", "__module__", "_a_", "__annotations__"]
 # names that become the same identifier after the naming conventions: 3 or more of one family in one scope
 COLLISION_FAMILIES = [["foo_bar", "foo-bar", "fooBar", "FooBar", "foo.bar"], ["a-b", "a.b", "a_b", "aB", "a__b"], ["zip-code", "zip_code", "zipCode", "ZipCode", "zip.code"],
-                      ["km", "Km", "KM"], ["a1", "A1", "a-1", "a_1"], ["_1st", "1st", "n1st"]]
+                      ["km", "Km", "KM"], ["a1", "A1", "a-1", "a_1"], ["_1st", "1st", "n1st"],
+                      # names that equal what the duplicate-renaming step itself appends (<name>_Element, <name>_Attribute, <name>_<index>)
+                      ["ab", "a_b", "ab_Element", "a-b_Element", "ab_1"], ["foo", "Foo", "foo_Attribute", "foo_Element", "Foo_1"]]
 # names that are symbols of the generated code itself (not in the property's list; exercised by dedicated probes only)
 GENERATED_CODE_SYMBOLS = ["field", "dataclass", "Decimal", "QName", "XmlDate", "Enum", "Any", "Meta", "value", "list", "str", "int", "Optional", "List", "object", "property", "__init__", "__class__"]
 # documentation texts end up in docstrings and (accessible style) in metadata strings of the generated modules
